@@ -21,6 +21,8 @@ pub enum Ev {
     /// one step during which a request from (socket, protocol) arrives when the worker passes the
     /// given hook point for the first time (0 = polled, 1 = collected, 2 = sent)
     StepInject(u8, usize, Version),
+    /// the periodic statistics hand-off to the reporter queue (what the status timer triggers)
+    Handoff,
 }
 
 const POINTS: [&str; 3] = ["polled", "collected", "sent"];
@@ -32,12 +34,16 @@ impl Ev {
             Ev::Req(s, Version::Ietf13) => format!("I{}", s),
             Ev::Bad(s) => format!("X{}", s),
             Ev::Step => "step".into(),
+            Ev::Handoff => "handoff".into(),
             Ev::StepInject(p, s, v) => format!("step+{}{}@{}", if *v == Version::Classic { "C" } else { "I" }, s, POINTS[*p as usize]),
         }
     }
     pub fn parse(s: &str) -> Option<Ev> {
         if s == "step" {
             return Some(Ev::Step);
+        }
+        if s == "handoff" {
+            return Some(Ev::Handoff);
         }
         if let Some(rest) = s.strip_prefix("step+") {
             let (req, pt) = rest.split_once('@')?;
@@ -153,6 +159,7 @@ pub fn bad_datagram(variant: usize) -> Vec<u8> {
 }
 
 pub fn run_events(srv: &mut Srv, evs: &[Ev], nsock: usize, capture_log: bool) -> Obs {
+    srv.label = format!("in-process Server batch_size={} fault={} client_stats={} events={:?}", srv.cfg.batch_size, srv.cfg.fault, srv.cfg.client_stats, evs.iter().map(|e| e.name()).collect::<Vec<_>>());
     let per_sock = evs.len() / nsock.max(1);
     let clients: Vec<Client> = (0..nsock).map(|_| if per_sock > 32 { Client::with_big_buffer() } else { Client::new() }).collect();
     let mut counts = vec![[0usize; 2]; nsock];
@@ -186,6 +193,12 @@ pub fn run_events(srv: &mut Srv, evs: &[Ev], nsock: usize, capture_log: bool) ->
                     break;
                 }
                 drain_into(&clients, &mut received, &mut recv_us);
+            }
+            Ev::Handoff => {
+                if let Err(p) = srv.handoff_stats() {
+                    panic = Some(p);
+                    break;
+                }
             }
             Ev::StepInject(pt, s, v) => {
                 let vi = if v == Version::Classic { 0 } else { 1 };
